@@ -132,14 +132,20 @@ class RefArray:
 MASKED = "masked"
 
 
-def render(x):
+def render(x, strict=False):
     """Canonical rendering of something a backend returned: "masked" if the object is np.ma.masked
-    or its mask bit is set, otherwise the element; arrays become ["arr", shape, flat elements]."""
+    or its mask bit is set, otherwise the element; arrays become ["arr", shape, flat elements].
+    strict (used for to_array results): an element of a masked array counts as masked only through its MASK BIT - the masked
+    constant sitting in the data under a cleared bit is an element that NumPy (and `.mask`) reports as present."""
     if x is np.ma.masked:
         return MASKED
     if isinstance(x, np.ma.MaskedArray):
         data = np.asarray(np.ma.getdata(x))
         bits = np.ma.getmaskarray(x)
+        if strict:
+            return ["arr", list(x.shape),
+                    [MASKED if b else ("masked-constant-under-a-cleared-mask-bit" if d is np.ma.masked else render(d))
+                     for d, b in zip(_flat(data), _flat(bits))]]
         return ["arr", list(x.shape),
                 [MASKED if (b or d is np.ma.masked) else render(d)
                  for d, b in zip(_flat(data), _flat(bits))]]
